@@ -432,8 +432,19 @@ class JetscapeLoader(BaseLoader):
         data: List[Particle] = []
         num_read_lines = self.__get_num_read_lines()
         cut_events = 0
+        first_event = 0
         with open(self.PATH_JETSCAPE_, "r") as jetscape_file:
             self._skip_lines(jetscape_file)
+            # Keep only the rows of the events that are read, such that the
+            # n-th event read is described by row n also when it is filtered
+            if "events" in self.optional_arguments_.keys():
+                if isinstance(kwargs["events"], int):
+                    first_event = last_event = kwargs["events"]
+                else:
+                    first_event, last_event = kwargs["events"]
+                self.num_output_per_event_ = self.num_output_per_event_[
+                    first_event : last_event + 1
+                ]
 
             for i in range(0, num_read_lines):
                 line = jetscape_file.readline()
@@ -447,7 +458,7 @@ class JetscapeLoader(BaseLoader):
                         )[0]
                         if len(data) != 0 or old_data_len == 0:
                             self.num_output_per_event_[len(particle_list)] = (
-                                len(particle_list) + 1,
+                                first_event + len(particle_list) + 1,
                                 len(data),
                             )
                         else:
@@ -505,7 +516,7 @@ class JetscapeLoader(BaseLoader):
                                 self.num_output_per_event_[
                                     len(particle_list)
                                 ] = (
-                                    len(particle_list) + 1,
+                                    first_event + len(particle_list) + 1,
                                     len(data),
                                 )
                             else:
@@ -546,16 +557,8 @@ class JetscapeLoader(BaseLoader):
                     + "number of events specified by the comments in the "
                     + "Jetscape file!"
                 )
-        elif isinstance(kwargs["events"], int):
-            update = self.num_output_per_event_[kwargs["events"]]
-            self.num_output_per_event_ = np.array([update])
-            self.num_events_ = int(1)
-        elif isinstance(kwargs["events"], tuple):
-            event_start = kwargs["events"][0]
-            event_end = kwargs["events"][1]
-            update = self.num_output_per_event_[event_start : event_end + 1]
-            self.num_output_per_event_ = update
-            self.num_events_ = int(event_end - event_start + 1)
+        else:
+            self.num_events_ = len(particle_list)
 
         if particle_list == []:
             particle_list = [[]]
